@@ -72,6 +72,7 @@ pub struct PlanCase {
 
 pub const K_OWN_FIRST: &str = "C18:merge-plan:move-overwrites-destination-own-data:first-destination";
 pub const K_OWN_LATER: &str = "C18:merge-plan:move-overwrites-destination-own-data:later-destination";
+pub const K_USED_AT_PLANNING: &str = "C18:merge-plan:move-lands-on-bytes-the-destination-used-at-planning-time";
 pub const K_OTHER_LIVE: &str = "C18:merge-plan:move-overwrites-live-bytes:other";
 pub const K_TWO_MOVES: &str = "C18:merge-plan:two-moves-overlap-in-destination";
 pub const K_OVERFILL: &str = "C18:merge-plan:segment-filled-beyond-size";
@@ -258,7 +259,23 @@ pub fn check(c: &PlanCase, known: &Known) -> Verdict {
                 format!("{}: only {covered} of {} source bytes are live at that moment", describe(k), m.length),
             ));
         }
-        // 2. destination free
+        // 2a. the statement's own wording: "bytes a destination segment already uses" are the bytes
+        // below its write position when the plan is made, whether or not an earlier move of the same
+        // plan has copied them elsewhere (the plan does not say when a source may be reused)
+        let used_at_planning = c.segs[d].write_position;
+        if m.dest_offset < used_at_planning {
+            violations.push((
+                K_USED_AT_PLANNING,
+                format!(
+                    "{} lands on bytes [{}..{}) that segment {} uses when the plan is made (write position {used_at_planning})",
+                    describe(k),
+                    m.dest_offset,
+                    d_end.min(used_at_planning),
+                    m.dest_segment
+                ),
+            ));
+        }
+        // 2b. destination free at that moment of an in-order execution
         let destroyed = carve(&mut live[d], m.dest_offset, d_end);
         if !destroyed.is_empty() {
             let bytes: u64 = destroyed.iter().map(|p| p.len).sum();
